@@ -209,6 +209,14 @@ CODEC_RULE = (
     "a case is non-trivial when it produced at least three different (request kind, answer kind) pairs; distinct = distinct input lists"
 )
 
+
+def import_features(case):
+    kinds = set()
+    for op, obs in zip(case["ops"][1:], case["impl"][1:]):
+        kinds.add(split_obs(obs)[0].split(" | ")[0].split(":")[0])
+    return list(case["ops"][1:]), (kinds if len(kinds) >= 2 else set())
+
+
 VEC_RULE = (
     "histories generated by harness/src/vec_engine.rs over 14 format×type combinations (BytesVec u16/u64/u128/f32, ZeroCopyVec u32/u64, "
     "PcoVec u32/u64/i64/f64, LZ4Vec u64/u128, ZstdVec u16/u32), values incl. 0, MAX, sign boundary and random bit patterns, bulk pushes of "
@@ -238,6 +246,9 @@ ENGINES.append({"name": "compute", "path": "harness/src/compute_engine.rs + lean
 
 ENGINES.append({"name": "codec", "path": "harness/src/codec_engine.rs + lean/Driver/CodecProto.lean", "serves_properties": ["C17"],
      "kind_free_text": "valid, boundary and mutated encodings (field values 0, page multiples ± 1, 2^32, 2^63, u64::MAX, name lengths 0/1/1023/1024/1025, invalid UTF-8 classes, wrong slot sizes, bit flips) fed to the real decoders under catch_unwind and to the Lean decoders; whole crafted metadata files opened by Database::open and compared with the model's fill"})
+
+ENGINES.append({"name": "import", "path": "harness/src/import_engine.rs + lean/Driver/ImportProto.lean", "serves_properties": ["C14"],
+     "kind_free_text": "exhaustive enumeration of (creation entry point, creation version, creation format) × (reopen entry point, version v-1/v/v+1, format) over the five formats: 300 create/flush/reopen/reopen-again experiments on real vectors compared with the Lean importVec and with the property's own expectations"})
 
 NOT_CLAIMED = {}
 
@@ -345,6 +356,17 @@ PROPS = {
         level_text="Lean 4 theorems over the field layout regenerated from the Rust source on every run: every w-byte little-endian integer below 256^w decodes to itself and a slice of another length is refused (C17_le_rt, C17_le_len, C17_array_rt); every valid region-metadata entry round-trips (C17_meta_rt), whatever decodes satisfies the validity rules — aligned start, page-multiple reserve ≥ a page, len ≤ reserve, name ≤ 1024 bytes of valid UTF-8 (C17_meta_valid), any other size is refused (C17_meta_size), each slot is decoded on its own at open (C17_fill_independent); vector header, page-index entry and format byte round-trip for all values (C17_header_rt, C17_page_rt, C17_format_rt); the change-record parser's totality and count guards are C16's. Tied to the code by the codec engine: same answer (kind and fields) from the real decoders and the Lean decoders on valid, boundary and mutated inputs, panics caught, and real Database::open on crafted metadata files = model fill.",
         level_note="Trusted: Lean kernel + standard axioms; tools/extract.py (regex) for the layout constants; hand-written decoders tied by differential run. 'Never allocates beyond the input' is argued from the model (counts are compared with the remaining input before reading) and not measured on the implementation.",
         technique="Lean 4 proof of encode/decode round trips and validity of decoded values over extracted layouts + differential decoding of boundary/mutated inputs",
+    ),
+    "C14": dict(
+        lean="AnyDB.Props.C14",
+        runs=[
+            Run("import", "table", ["--total-cases", "20"], (20, 0), (20, 0), proj_all, ["C14", "panic"], import_features, clean=False),
+        ],
+        rule="the finite space {import, forced_import}² × 5 creation formats × 5 reopen formats × reopen version ∈ {v-1, v, v+1} (300 experiments, 10 or 2500 elements, compressed ones with page index) is enumerated completely in both tiers, 15 experiments per case; a case is non-trivial when it shows at least two different outcomes; distinct = distinct experiment lists",
+        assumptions=["same element type (u64) on both sides; lock and I/O errors are not provoked (the extractor pins the match arms of forced_import_with instead)"],
+        level_text="Lean 4 theorems over the import decision model with the layer constants, the number of VERSION additions per entry point, the reset arms of forced_import_with and the verification order extracted from the source: same entry point + same user version + same format ⇒ contents kept (C14_same_entry_kept / C14_partial); a plain import with a differing effective version or format fails with the matching error and leaves the stored data untouched (C14_plain_mismatch_untouched); a forced import discards if and only if the stored header fails verification with DifferentVersion/DifferentFormat, and then stores an empty vector of the requested version and format (C14_forced_discards_iff, C14_forced_result_empty, C14_reset_arms); the full statement (either entry point) is refuted on the model (C14_counterexample, C14_double_add) — known finding F2. The whole finite input space is run on real vectors and compared with the model (exhaustive).",
+        level_note="Trusted: Lean kernel + standard axioms; extractor; hand-written model. F2 is an on-disk compatibility decision (which entry point's stored version is canonical) and is recorded, not repaired.",
+        technique="Lean 4 proof over the import decision table built from extracted constants + exhaustive differential enumeration of the finite input space",
     ),
     "C13": dict(
         lean="AnyDB.Props.C13",
